@@ -1,9 +1,42 @@
-(* C05 - end-to-end secure frame exchange.  Statements only; proofs in LW.Sec.EndToEndProofs. *)
+(* C05 - end-to-end secure frame exchange recovers the content and rejects tampering.
+   Statements only; proofs in LW.Sec.Recover (recovers) and LW.Sec.EndToEndProofs (tamper).
+   Model: LW.Sec.EndToEnd = compositions of the C01/C02/C03/C07 model functions in the order of
+   the documented sender / receiver method sequences.
+
+   Premises left to the frame-codec work (Frame/*Proofs.v, the lead), stated in full in the
+   theorems that use them:
+     C05_recovers:      frame_roundtrip  = C01: a spec_valid frame marshals and decodes to its wire view;
+     C05_tamper_bytes:  reencode         = C08: canonical bytes that decode re-encode to themselves.
+   Everything else (MAC command stream round trip, AES/CMAC byte ranges, involution of the
+   encryption, invariance of the MIC under the wire view) is proved. *)
 From Coq Require Import List NArith ZArith Bool.
-From LW Require Import Base.Outcome Base.Bytes Crypto.AES Crypto.CMAC Mac.Commands Mac.Spec Mac.Stream
-     Frame.Model Frame.Spec Sec.MIC Sec.MICSpec Sec.MICProofs Sec.Encrypt Sec.EndToEnd Sec.EndToEndProofs.
+From LW Require Import Base.Outcome Base.Bytes Crypto.AES Crypto.AESInv Crypto.CMAC Mac.Commands Mac.Spec Mac.Stream
+     Mac.StreamProofs Mac.RegOkProofs
+     Frame.Model Frame.Spec Sec.MIC Sec.MICSpec Sec.MICProofs Sec.Encrypt Sec.EndToEnd Sec.EndToEndProofs
+     Sec.Recover.
+From LWGen Require Import RegistryGen.
 Import ListNotations.
 Open Scope N_scope.
+
+(* both directions (MType of f), both versions, all byte keys, every counter / parameter value *)
+Theorem C05_recovers :
+  (forall p, spec_valid p = true -> exists bs, phy_marshal p = Ok bs /\ phy_unmarshal bs = Ok (wire_view p)) ->
+  forall ver k prm f m,
+    keys_ok k -> params_ok prm -> spec_valid_data builtin_registry f = true -> pl f = PLMac m ->
+    exists bs, sender ver k prm f = Ok bs /\
+               receiver builtin_registry ver k prm (fcnt (hdr m)) bs = Ok (commands_and_payload f).
+Proof. exact (recovers builtin_registry reg_ok_builtin). Qed.
+Print Assumptions C05_recovers.
+
+(* ... and for the registry after any history of proprietary registrations *)
+Theorem C05_recovers_any_registry : forall h,
+  (forall p, spec_valid p = true -> exists bs, phy_marshal p = Ok bs /\ phy_unmarshal bs = Ok (wire_view p)) ->
+  forall ver k prm f m,
+    keys_ok k -> params_ok prm -> spec_valid_data (register_all builtin_registry h) f = true -> pl f = PLMac m ->
+    exists bs, sender ver k prm f = Ok bs /\
+               receiver (register_all builtin_registry h) ver k prm (fcnt (hdr m)) bs = Ok (commands_and_payload f).
+Proof. intros h. exact (recovers _ (reg_ok_history h)). Qed.
+Print Assumptions C05_recovers_any_registry.
 
 Theorem C05_tamper : forall ver up k prm full bs b,
   rx_validate ver up k prm full bs = Ok b ->
@@ -15,3 +48,48 @@ Theorem C05_tamper : forall ver up k prm full bs b,
                    (spec_data_mic ver up k prm (ack (fc (hdr m))) (devaddr (hdr m)) full msg)).
 Proof. exact tamper. Qed.
 Print Assumptions C05_tamper.
+
+Theorem C05_tamper_bytes : forall canonical : list N -> Prop,
+  (forall bs p, canonical bs -> phy_unmarshal bs = Ok p -> phy_marshal p = Ok bs) ->
+  forall ver up k prm full bs b,
+    canonical bs -> rx_validate ver up k prm full bs = Ok b ->
+    exists p m,
+      phy_unmarshal bs = Ok p /\ pl p = PLMac m /\
+      (full mod 65536 = fcnt (hdr m) mod 65536 ->
+       length (devaddr (hdr m)) = 4%nat -> (length bs - 4 < 256)%nat ->
+       b = bytes_eqb (skipn (length bs - 4) bs)
+                     (spec_data_mic ver up k prm (ack (fc (hdr m))) (devaddr (hdr m)) full
+                                    (firstn (length bs - 4) bs))).
+Proof. exact tamper_bytes. Qed.
+Print Assumptions C05_tamper_bytes.
+
+(* known finding C05-2: for non-canonical bytes (an MHDR RFU bit set) the validation accepts a frame
+   whose received bytes do not carry the specification MIC *)
+Theorem C05_tamper_noncanonical_refuted :
+  rx_validate LoRaWAN1_0 true c05_2_keys (mkParams 0 0 0) 5 c05_2_bytes = Ok true /\
+  bytes_eqb (skipn 12 c05_2_bytes)
+            (spec_data_mic LoRaWAN1_0 true c05_2_keys (mkParams 0 0 0) false [1; 2; 3; 4] 5 (firstn 12 c05_2_bytes))
+  = false.
+Proof. exact tamper_noncanonical_refuted. Qed.
+Print Assumptions C05_tamper_noncanonical_refuted.
+
+(* non-vacuity: a 1.1 confirmed downlink with two MAC commands in FOpts, FCnt above 2^16 and 20
+   application bytes goes through both pipelines of the model *)
+Definition ex_keys : keys :=
+  mkKeys (map N.of_nat (seq 1 16)) (map N.of_nat (seq 17 16)) (map N.of_nat (seq 33 16)) (map N.of_nat (seq 49 16)).
+Definition ex_f : phy :=
+  mkPHY ConfirmedDataDown 0
+        (PLMac (mkMAC (mkFHDR [1; 2; 3; 4] (mkFCtrl true false true false false 0) 70000
+                              [IMac 6 None; IMac 4 (Some (PDutyCycleReq 3))])
+                      (Some 10) [IData (map N.of_nat (seq 100 20))]))
+        [0; 0; 0; 0].
+Definition ex_bs : list N :=
+  Eval vm_compute in match sender LoRaWAN1_1 ex_keys (mkParams 66000 0 0) ex_f with Ok b => b | _ => [] end.
+Example C05_example_nonvacuous :
+  spec_valid_data builtin_registry ex_f = true /\ length ex_bs = 36%nat /\
+  sender LoRaWAN1_1 ex_keys (mkParams 66000 0 0) ex_f = Ok ex_bs /\
+  receiver builtin_registry LoRaWAN1_1 ex_keys (mkParams 66000 0 0) 70000 ex_bs = Ok (commands_and_payload ex_f) /\
+  (* the receiver with the counter off by 2^16, or another ConfFCnt, rejects *)
+  receiver builtin_registry LoRaWAN1_1 ex_keys (mkParams 66000 0 0) (70000 + 65536) ex_bs = Ok BadMIC /\
+  receiver builtin_registry LoRaWAN1_1 ex_keys (mkParams 66001 0 0) 70000 ex_bs = Ok BadMIC.
+Proof. vm_compute. repeat split; reflexivity. Qed.
